@@ -21,7 +21,7 @@ ASSUMPTIONS = ["interior cusps (two different one-sided limits) make no claim an
                "regular point: |B'(t)| > 1e-6 * size; tolerance 1e-9 on unit vectors (1e-6 for arcs, cf. C04), curvature to 1e-7 relative"]
 CONFIGS = ['scipy']
 BUDGET = {'quick': 30000, 'thorough': 500000}
-REQUIRED = ['singular_transform:matrix', 'singular_transform:scaled_tiny', 'transform:matrix', 'transform:scaled_tiny', 'transform:scaled_huge', 'singular_transform:scaled', 'singular_transform:rotated', 'singular:t0', 'singular:t1', 'regular', 'numpy_coords', 'kind:A', 'kind:L', 'transform:rotated', 'transform:scaled_neg',
+REQUIRED = ['numpy_errstate_default', 'singular_transform:matrix', 'singular_transform:scaled_tiny', 'transform:matrix', 'transform:scaled_tiny', 'transform:scaled_huge', 'singular_transform:scaled', 'singular_transform:rotated', 'singular:t0', 'singular:t1', 'regular', 'numpy_coords', 'kind:A', 'kind:L', 'transform:rotated', 'transform:scaled_neg',
             'transform:reversed', 'quadrant:0', 'quadrant:1', 'quadrant:2', 'quadrant:3', 'circular_arc']
 
 EPS = 2.0 ** -52
@@ -55,13 +55,14 @@ def strategy(tier, config):
     def s(draw):
         mode = draw(st.sampled_from(['singular', 'singular', 'regular', 'regular', 'arc', 'line']))
         npc = draw(st.booleans())
+        es = draw(st.sampled_from(['raise', 'default']))
         tr = draw(st.sampled_from(['none', 'translated', 'rotated', 'scaled', 'scaled_neg', 'reversed', 'matrix', 'scaled_tiny', 'scaled_huge']))
         tp = {'deg': draw(st.one_of(st.sampled_from([90.0, 180.0, 45.0, -30.0]), gen.floats_in(-360.0, 360.0))),
               'z': [draw(gen.coord()), draw(gen.coord())], 's': draw(gen.floats_in(0.2, 5.0))}
         ts = draw(st.lists(gen.ts_unit, min_size=1, max_size=2))
         if mode == 'singular':
             sb = draw(singular_bezier())
-            return {'mode': mode, 'spec': sb['spec'], 'sing_end': sb['sing_end'], 'order': sb['order'], 'numpy': npc, 'tr': tr, 'tp': tp, 'ts': ts}
+            return {'mode': mode, 'spec': sb['spec'], 'sing_end': sb['sing_end'], 'order': sb['order'], 'numpy': npc, 'tr': tr, 'tp': tp, 'ts': ts, 'errstate': es}
         if mode == 'arc':
             a = draw(gen.arc_center_form(max_ecc=30, scale_strategy=st.sampled_from([1e-2, 1.0, 1.0, 1e2])))
             spec = list(a['spec'])
@@ -69,12 +70,12 @@ def strategy(tier, config):
                 # radii too small for the chord: the constructor enlarges them (everything derived must use the enlarged ones)
                 f = draw(st.sampled_from([0.5, 0.1, 0.9, 0.01]))
                 spec[2] = [spec[2][0] * f, spec[2][1] * f]
-            return {'mode': mode, 'spec': spec, 'numpy': False, 'tr': tr, 'tp': tp, 'ts': ts}
+            return {'mode': mode, 'spec': spec, 'numpy': False, 'tr': tr, 'tp': tp, 'ts': ts, 'errstate': es}
         if mode == 'line':
             b = draw(gen.bezier_spec(deg_strategy=st.just(1)))
-            return {'mode': mode, 'spec': b['spec'], 'numpy': npc, 'tr': tr, 'tp': tp, 'ts': ts}
+            return {'mode': mode, 'spec': b['spec'], 'numpy': npc, 'tr': tr, 'tp': tp, 'ts': ts, 'errstate': es}
         b = draw(gen.bezier_spec(deg_strategy=st.sampled_from([2, 3]), classes=['generic', 'generic', 'collinear', 'elevated', 'axis', 'nearlinear']))
-        return {'mode': mode, 'spec': b['spec'], 'numpy': npc, 'tr': tr, 'tp': tp, 'ts': ts}
+        return {'mode': mode, 'spec': b['spec'], 'numpy': npc, 'tr': tr, 'tp': tp, 'ts': ts, 'errstate': es}
     return s()
 
 
@@ -131,6 +132,19 @@ def _matrix_image(seg, tp, size):
 
 
 def check(case, ctx):
+    import warnings
+    # numpy's floating-point error state is the caller's business: the results may not depend on it
+    if case.get('errstate', 'raise') == 'raise':
+        with np.errstate(invalid='raise', divide='raise'):
+            return _check(case, ctx)
+    ctx.count('numpy_errstate_default')
+    with warnings.catch_warnings():
+        warnings.simplefilter('ignore')
+        with np.errstate(invalid='warn', divide='warn'):
+            return _check(case, ctx)
+
+
+def _check(case, ctx):
     spec = case['spec']
     kind = spec[0]
     if kind == 'A':
@@ -150,7 +164,7 @@ def check(case, ctx):
     if not (1e-6 <= size <= 1e9):
         ctx.discard('size outside the 1e-3..1e6 coordinate scales')
     utol = 1e-6 if kind == 'A' else 1e-9
-    with np.errstate(invalid='raise', divide='raise'):
+    if True:
         # -- regular points ------------------------------------------------------------------------
         for t in case['ts']:
             d1, d2 = ref_derivs(spec, seg, t)
